@@ -1,4 +1,5 @@
 (* C10 - Validation is invariant under Unicode-equivalent spellings. *)
+From B39 Require Import Proofs.Calls.
 From B39 Require Import Lib.Base Lib.Sha256 Lib.Nfkd Model.GenTypes Model.Model Spec.Bip39Spec.
 From B39 Require Import Proofs.Tables Proofs.LibContract Proofs.Sound Proofs.Api.
 
@@ -14,6 +15,11 @@ Theorem C10_valid_spellings : forall lib, lib_contract lib -> forall (name : str
   nfkd s = join [x20] (map (word_at (canon name)) idx) ->
   CheckMnemonicL lib s l = Ret None.
 Proof. exact valid_spelling_accepted. Qed.
+
+(* the functions this property is about, and every package function they reach, call only what the model
+   accounts for (closed world of callees, computed on coq/Gen/Calls.v, regenerated from the source every run) *)
+Theorem C10_callees : reach_ok "CheckMnemonic" = true /\ reach_ok "IsMnemonicValid" = true.
+Proof. exact calls_validator. Qed.
 
 Print Assumptions C10_same_nfkd.
 Print Assumptions C10_valid_spellings.
